@@ -1,1 +1,414 @@
-(* placeholder *)
+(* Proofs/DivGenTie.v — Knuth's Algorithm D: src/buint/div.rs basecase_div_rem with its nested items (struct Remainder,
+   struct Mul, their methods, fn tuple_gt).
+   Tie between the code GENERATED from /repo/src/buint/div.rs on every run (Generated/DivGen.v, by tools/rs2v_div.py) and
+   the hand-written model Model/Div.v that the C03 theorems are about: for every digit width w > 0, every digit count N
+   and all operands the dispatcher div_rem_unchecked can pass, with an iteration budget of at least N + 1 the generated
+   function neither panics (no index out of bounds, no usize / digit subtraction below zero, no digit shift by >= the
+   width) nor runs out of budget, and returns exactly what Div.basecase_div_rem returns.
+
+   Representation: the generated code keeps `Remainder { first, rest }` as the pair (first, rest) and `Mul { last, rest }`
+   as the pair (last, rest); the hand model keeps both as ONE digit list.  The relation is
+       rrep (first, rest) = first :: rest            mrep (last, rest) = rest ++ [last].                              *)
+From Bnum Require Import Base Prim.
+From Bnum.Model Require Import DigitPrims LoopPrims Digit Core Shift AddSub Mul Imp ImpDiv.
+From Bnum.Model Require Div.
+From Bnum.Generated Require Import DigitGen DivGen.
+From Bnum.Proofs Require Import DigitTie ImpLemmas DivAux DivKnuth.
+
+Definition rrep (u : Z * list Z) : list Z := fst u :: snd u.
+Definition mrep (m : Z * list Z) : list Z := snd m ++ [fst m].
+
+(* ================= generic: a loop that updates an array in place, threading a value ================= *)
+
+(* iteration k reads digit (start + k) of the array, writes fst (f k digit c) there and continues with snd (f k digit c) *)
+Fixpoint run_ip {C : Type} (start : nat) (f : nat -> Z -> C -> Z * C) (k d : nat) (out : list Z) (c : C) : list Z * C :=
+  match d with
+  | O => (out, c)
+  | S d' => let x := f k (nth (start + k) out 0) c in
+            run_ip start f (S k) d' (list_set out (start + k) (fst x)) (snd x)
+  end.
+
+(* the same as a recursion over the window being rewritten *)
+Fixpoint scan_at {C : Type} (f : nat -> Z -> C -> Z * C) (k : nat) (l : list Z) (d : nat) (c : C) {struct d} : list Z * C :=
+  match d, l with
+  | S d', x :: r => let y := f k x c in let r' := scan_at f (S k) r d' (snd y) in (fst y :: fst r', snd r')
+  | _, _ => ([], c)
+  end.
+
+Lemma run_ip_eq {C : Type} start (f : nat -> Z -> C -> Z * C) : forall d k out c, (start + k + d <= length out)%nat ->
+  run_ip start f k d out c =
+  (firstn (start + k) out ++ fst (scan_at f k (skipn (start + k) out) d c) ++ skipn (start + k + d) out,
+   snd (scan_at f k (skipn (start + k) out) d c)).
+Proof.
+  induction d as [|d IH]; intros k out c Hlen.
+  - cbn [run_ip scan_at fst snd app]. rewrite Nat.add_0_r, firstn_skipn. reflexivity.
+  - cbn [run_ip]. cbv zeta. rewrite IH by (rewrite list_set_length; lia).
+    rewrite (skipn_nth_cons out (start + k)) by lia. cbn [scan_at]. cbv zeta. cbn [fst snd].
+    replace (start + S k)%nat with (S (start + k)) by lia.
+    rewrite firstn_S_list_set by lia. rewrite skipn_S_list_set. rewrite skipn_list_set_gt by lia.
+    rewrite <- app_assoc. cbn [app].
+    replace (S (start + k) + d)%nat with (start + k + S d)%nat by lia. reflexivity.
+Qed.
+
+Lemma scan_at_length {C : Type} (f : nat -> Z -> C -> Z * C) : forall d k l c, (d <= length l)%nat ->
+  length (fst (scan_at f k l d c)) = d.
+Proof.
+  induction d as [|d IH]; intros k l c Hl; [reflexivity|].
+  destruct l as [|x r]; [cbn [length] in Hl; lia|]. cbn [scan_at]. cbv zeta. cbn [fst length].
+  rewrite IH by (cbn [length] in Hl; lia). reflexivity.
+Qed.
+
+(* reading the second operand from a fixed list b: the hand models' zipped scans *)
+Lemma scan_at_scan2 {C : Type} (g : Z -> Z -> C -> Z * C) (b : list Z) : forall d k l c,
+  (d <= length l)%nat -> (k + d <= length b)%nat ->
+  scan_at (fun k x c => g x (nth k b 0) c) k l d c = scan2 g (firstn d l) (firstn d (skipn k b)) c.
+Proof.
+  induction d as [|d IH]; intros k l c Hl Hb; [destruct l; reflexivity|].
+  destruct l as [|x r]; [cbn [length] in Hl; lia|].
+  rewrite (skipn_nth_cons b k) by lia. cbn [scan_at firstn scan2]. cbv zeta.
+  rewrite IH by (cbn [length] in Hl; lia). reflexivity.
+Qed.
+
+Lemma loop_inplace {St R C : Type} (arr : St -> list Z) (cv : St -> C) (ctr : St -> Z) (P : St -> Prop)
+      (start cnt : nat) (f : nat -> Z -> C -> Z * C) (cond : St -> bool) (body : St -> res (flow St R)) :
+  (forall s k, P s -> ctr s = Z.of_nat k -> (k < cnt)%nat -> cond s = true) ->
+  (forall s, P s -> ctr s = Z.of_nat cnt -> cond s = false) ->
+  (forall s k, P s -> ctr s = Z.of_nat k -> (k < cnt)%nat ->
+     exists s', body s = Done (Continue s') /\ P s' /\ ctr s' = Z.of_nat (S k) /\
+       arr s' = list_set (arr s) (start + k) (fst (f k (nth (start + k) (arr s) 0) (cv s))) /\
+       cv s' = snd (f k (nth (start + k) (arr s) 0) (cv s))) ->
+  forall d k s fuel, (k + d = cnt)%nat -> P s -> ctr s = Z.of_nat k -> (d <= fuel)%nat ->
+  exists s', while_loop fuel cond body s = Done (Exited s') /\ P s' /\ ctr s' = Z.of_nat cnt /\
+    (arr s', cv s') = run_ip start f k d (arr s) (cv s).
+Proof.
+  intros Hct Hcf Hb. induction d as [|d IH]; intros k s fuel Hk HP Hctr Hf.
+  - assert (k = cnt) by lia. subst k. exists s.
+    split; [destruct fuel; cbn [while_loop]; rewrite (Hcf s HP Hctr); reflexivity|].
+    split; [exact HP|]. split; [exact Hctr | reflexivity].
+  - destruct fuel as [|fuel]; [lia|]. cbn [while_loop]. rewrite (Hct s k HP Hctr) by lia.
+    destruct (Hb s k HP Hctr ltac:(lia)) as (s1 & Hbody & HP1 & Hctr1 & Harr1 & Hcv1). rewrite Hbody.
+    destruct (IH (S k) s1 fuel ltac:(lia) HP1 Hctr1 ltac:(lia)) as (s' & Hw & HP' & Hctr' & Hres).
+    exists s'. split; [exact Hw|]. split; [exact HP'|]. split; [exact Hctr'|].
+    rewrite Hres, Harr1, Hcv1. reflexivity.
+Qed.
+
+(* the loops of Remainder::shr: out[j] := h j out[j] for j = 0 .. n-1, state (out, j) *)
+Fixpoint mapi (h : nat -> Z -> Z) (j : nat) (l : list Z) : list Z :=
+  match l with [] => [] | x :: r => h j x :: mapi h (S j) r end.
+
+Lemma mapi_length h : forall l j, length (mapi h j l) = length l.
+Proof. induction l as [|x r IH]; intros j; cbn [mapi length]; [reflexivity | rewrite IH; reflexivity]. Qed.
+
+Lemma nth_mapi h : forall l j i, (i < length l)%nat -> nth i (mapi h j l) 0 = h (j + i)%nat (nth i l 0).
+Proof.
+  induction l as [|x r IH]; intros j i Hi; cbn [length] in Hi; [lia|].
+  destruct i; cbn [mapi nth]; [rewrite Nat.add_0_r; reflexivity|].
+  rewrite IH by lia. f_equal. lia.
+Qed.
+
+Lemma loop_mapi {R : Type} (h : nat -> Z -> Z) (n : nat)
+      (cond : list Z * Z -> bool) (body : list Z * Z -> res (flow (list Z * Z) R)) :
+  (forall out i, cond (out, i) = (i <? Z.of_nat n)) ->
+  (forall out j, (j < n)%nat -> length out = n ->
+     body (out, Z.of_nat j) = Done (Continue (list_set out j (h j (nth j out 0)), Z.of_nat j + 1))) ->
+  forall fuel k out, length out = n -> (k <= n)%nat -> (n - k <= fuel)%nat ->
+  while_loop fuel cond body (out, Z.of_nat k) = Done (Exited (firstn k out ++ mapi h k (skipn k out), Z.of_nat n)).
+Proof.
+  intros Hc Hb fuel. induction fuel as [|fuel IH]; intros k out Hlen Hk Hf.
+  - assert (k = n) by lia. subst k. cbn [while_loop]. rewrite Hc, Z.ltb_irrefl.
+    rewrite skipn_all2 by lia. cbn [mapi]. rewrite app_nil_r, firstn_all2 by lia. reflexivity.
+  - destruct (Nat.eq_dec k n) as [->|Hne].
+    + cbn [while_loop]. rewrite Hc, Z.ltb_irrefl.
+      rewrite skipn_all2 by lia. cbn [mapi]. rewrite app_nil_r, firstn_all2 by lia. reflexivity.
+    + cbn [while_loop]. rewrite Hc. rewrite ltb_of_nat. destruct (Nat.ltb_spec k n) as [_|]; [|lia].
+      rewrite Hb by lia. replace (Z.of_nat k + 1) with (Z.of_nat (S k)) by lia.
+      rewrite IH by (try rewrite list_set_length; lia).
+      rewrite firstn_S_list_set by lia. rewrite skipn_S_list_set.
+      rewrite (skipn_nth_cons out k) by lia. cbn [mapi]. rewrite <- app_assoc. reflexivity.
+Qed.
+
+(* ================= list facts ================= *)
+
+Lemma set_nth_as_list_set f l k : (k < length l)%nat -> set_nth k f l = list_set l k (f (nth k l 0)).
+Proof.
+  intros Hk. unfold set_nth. rewrite list_set_split by exact Hk.
+  rewrite (skipn_nth_cons l k) by exact Hk. reflexivity.
+Qed.
+
+Lemma dg_add_loop_scan2 w a b c : add_loop w a b c = scan2 (carrying_add w) a b c.
+Proof.
+  revert b c. induction a as [|x a IH]; intros b c; [reflexivity|].
+  destruct b as [|y b]; [reflexivity|]. cbn [add_loop scan2].
+  destruct (carrying_add w x y c) as [s c1]. cbn [fst snd]. rewrite IH.
+  destruct (scan2 (carrying_add w) a b c1). reflexivity.
+Qed.
+
+Lemma dg_sub_loop_scan2 w a b c : sub_loop w a b c = scan2 (borrowing_sub w) a b c.
+Proof.
+  revert b c. induction a as [|x a IH]; intros b c; [reflexivity|].
+  destruct b as [|y b]; [reflexivity|]. cbn [sub_loop scan2].
+  destruct (borrowing_sub w x y c) as [s c1]. cbn [fst snd]. rewrite IH.
+  destruct (scan2 (borrowing_sub w) a b c1). reflexivity.
+Qed.
+
+(* writing digit p of a Remainder: `if p == 0 { self.first = x } else { self.rest[p - 1] = x }` *)
+Lemma rrep_set_first (u : Z * list Z) x : rrep (x, snd u) = list_set (rrep u) 0 x.
+Proof. reflexivity. Qed.
+
+Lemma rrep_set_rest (u : Z * list Z) p x : rrep (fst u, list_set (snd u) p x) = list_set (rrep u) (S p) x.
+Proof. reflexivity. Qed.
+
+(* ================= the helpers, one by one ================= *)
+
+(* Remainder::digit *)
+Lemma gen_Remainder_digit w M fuel (u : Z * list Z) p : (p <= length (snd u))%nat ->
+  DivGen.Remainder_digit w M fuel u (Z.of_nat p) = Done (nth p (rrep u) 0).
+Proof.
+  intros Hp. unfold DivGen.Remainder_digit, rrep. destruct p as [|p].
+  - reflexivity.
+  - destruct (Z.eqb_spec (Z.of_nat (S p)) 0) as [E|_]; [lia|].
+    rewrite usub_ok by lia. cbn [bind]. replace (Z.of_nat (S p) - 1) with (Z.of_nat p) by lia.
+    rewrite arr_get_nat by lia. reflexivity.
+Qed.
+
+(* Mul::digit *)
+Lemma gen_Mul_digit w N fuel (m : Z * list Z) p : length (snd m) = N -> (p <= N)%nat ->
+  DivGen.Mul_digit w (Z.of_nat N) fuel m (Z.of_nat p) = Done (nth p (mrep m) 0).
+Proof.
+  intros Hm Hp. unfold DivGen.Mul_digit, mrep.
+  destruct (Z.eqb_spec (Z.of_nat p) (Z.of_nat N)) as [E|E].
+  - apply Nat2Z.inj in E. subst p. rewrite app_nth2 by lia. rewrite Hm, Nat.sub_diag. reflexivity.
+  - rewrite arr_get_nat by lia. cbn [bind]. rewrite app_nth1 by lia. reflexivity.
+Qed.
+
+(* fn tuple_gt *)
+Lemma gen_tuple_gt w N fuel a b : DivGen.tuple_gt w N fuel a b = Done (Div.tuple_gt a b).
+Proof. unfold DivGen.tuple_gt, Div.tuple_gt. rewrite !Z.gtb_ltb. reflexivity. Qed.
+
+(* Remainder::new *)
+Lemma gen_Remainder_new w n fuel a s : wf w n a -> (0 < n)%nat -> 0 <= s < w ->
+  exists u, DivGen.Remainder_new w (Z.of_nat n) fuel a s = Done u /\ rrep u = Div.Remainder_new w a s.
+Proof.
+  intros [Ha _] Hn Hs. unfold DivGen.Remainder_new, Div.Remainder_new.
+  change 0 with (Z.of_nat 0) at 1. rewrite arr_get_nat by lia. cbn [bind].
+  rewrite dshl_ok by lia. cbn [bind]. rewrite usub_ok by lia. cbn [bind].
+  eexists. split; [reflexivity|]. unfold rrep. cbn [fst snd]. destruct a; reflexivity.
+Qed.
+(* Mul::new *)
+Lemma scan_at_mul w v q : forall d k l c, (d <= length l)%nat -> (k + d = length v)%nat ->
+  fst (scan_at (fun k (_ : Z) c => carrying_mul w (nth k v 0) q c 0) k l d c) ++
+  [snd (scan_at (fun k (_ : Z) c => carrying_mul w (nth k v 0) q c 0) k l d c)] = Div.mul_digit_loop w (skipn k v) q c.
+Proof.
+  induction d as [|d IH]; intros k l c Hl Hk.
+  - rewrite skipn_all2 by lia. reflexivity.
+  - destruct l as [|x r]; [cbn [length] in Hl; lia|].
+    rewrite (skipn_nth_cons v k) by lia. cbn [scan_at Div.mul_digit_loop]. cbv zeta.
+    destruct (carrying_mul w (nth k v 0) q c 0) as [p c1]. cbn [fst snd app].
+    rewrite IH by (cbn [length] in Hl; lia). reflexivity.
+Qed.
+
+Lemma gen_Mul_new w n fuel v q : 0 < w -> wf w n v -> digit_ok w q -> (n <= fuel)%nat ->
+  exists m, DivGen.Mul_new w (Z.of_nat n) fuel v q = Done m /\ length (snd m) = n /\ mrep m = Div.Mul_new w v q.
+Proof.
+  intros Hw [Hv Fv] Hq Hf. unfold DivGen.Mul_new. rewrite Nat2Z.id.
+  match goal with |- context [while_loop fuel ?cnd ?bdy ?st0] =>
+    edestruct (loop_inplace (fun s : Z * Z * list Z => snd s) (fun s => fst (fst s)) (fun s => snd (fst s))
+                (fun s => length (snd s) = n /\ digit_ok w (fst (fst s))) 0 n
+                (fun k (_ : Z) c => carrying_mul w (nth k v 0) q c 0) cnd bdy) with (d := n) (k := 0%nat) (s := st0) (fuel := fuel)
+      as (s' & Hw' & HP' & Hctr' & Hres) end.
+  - intros [[carry i] rest] k _ Hi Hk. cbn [fst snd] in Hi. subst i. apply Z.ltb_lt. lia.
+  - intros [[carry i] rest] _ Hi. cbn [fst snd] in Hi. subst i. apply Z.ltb_irrefl.
+  - intros [[carry i] rest] k [Hl Hc] Hi Hk. cbn [fst snd] in Hl, Hc, Hi. subst i. cbv beta iota. cbn [fst snd Nat.add].
+    rewrite arr_get_nat by lia. cbn [bind].
+    rewrite tie_carrying_mul; try assumption;
+      [| apply Forall_nth_Z; [assumption | lia] | apply digit_ok_0; lia].
+    pose proof (carrying_mul_spec w (nth k v 0) q carry ltac:(lia)
+                  ltac:(apply Forall_nth_Z; [assumption | lia]) Hq Hc) as Hs.
+    destruct (carrying_mul w (nth k v 0) q carry 0) as [p c1]. destruct Hs as (_ & Hc1 & _).
+    rewrite arr_set_nat by lia. cbn [bind].
+    eexists. split; [reflexivity|]. cbn [fst snd Nat.add].
+    split; [split; [rewrite list_set_length; exact Hl | exact Hc1]|].
+    split; [lia|]. split; reflexivity.
+  - lia.
+  - cbn [fst snd]. split; [apply repeat_length | apply digit_ok_0; lia].
+  - reflexivity.
+  - lia.
+  - rewrite Hw'. cbn [bind]. destruct s' as [[carry' i'] rest']. cbn [fst snd] in *.
+    eexists. split; [reflexivity|]. cbn [fst snd]. split; [apply HP'|].
+    rewrite run_ip_eq in Hres by (rewrite repeat_length; lia).
+    cbn [Nat.add firstn skipn app] in Hres.
+    rewrite (skipn_all2 (n := n)) in Hres by (rewrite repeat_length; lia). rewrite app_nil_r in Hres.
+    inversion Hres as [[Hr Hc]]. unfold mrep. cbn [fst snd].
+    rewrite (scan_at_mul w v q n 0 (repeat 0 n) 0) by (try rewrite repeat_length; lia).
+    reflexivity.
+Qed.
+(* Remainder::sub *)
+Lemma gen_Remainder_sub w N fuel (u mul : Z * list Z) start range :
+  length (snd u) = N -> length (snd mul) = N -> (start + range <= N)%nat -> (S range <= fuel)%nat ->
+  exists u', DivGen.Remainder_sub w (Z.of_nat N) fuel u mul (Z.of_nat start) (Z.of_nat range) =
+             Done (u', snd (Div.Remainder_sub w (rrep u) (mrep mul) start range)) /\
+    length (snd u') = N /\ rrep u' = fst (Div.Remainder_sub w (rrep u) (mrep mul) start range).
+Proof.
+  intros Hu Hm Hsr Hf. unfold DivGen.Remainder_sub.
+  match goal with |- context [while_loop fuel ?cnd ?bdy ?st0] =>
+    edestruct (loop_inplace (fun s : bool * Z * (Z * list Z) => rrep (snd s)) (fun s => fst (fst s)) (fun s => snd (fst s))
+                (fun s => length (snd (snd s)) = N) start (S range)
+                (fun k x c => borrowing_sub w x (nth k (mrep mul) 0) c) cnd bdy)
+      with (d := S range) (k := 0%nat) (s := st0) (fuel := fuel)
+      as (s' & Hw' & HP' & Hctr' & Hres) end.
+  - intros [[b i] self] k _ Hi Hk. cbn [fst snd] in Hi. subst i. apply Z.leb_le. lia.
+  - intros [[b i] self] _ Hi. cbn [fst snd] in Hi. subst i. apply Z.leb_gt. lia.
+  - intros [[b i] self] k Hl Hi Hk. cbn [fst snd] in Hl, Hi. subst i. cbv beta iota. cbn [fst snd].
+    rewrite <- Nat2Z.inj_add. rewrite gen_Remainder_digit by lia. cbn [bind].
+    rewrite (gen_Mul_digit w N fuel mul k Hm) by lia. cbn [bind].
+    rewrite tie_borrowing_sub. replace (k + start)%nat with (start + k)%nat by lia.
+    destruct (borrowing_sub w (nth (start + k) (rrep self) 0) (nth k (mrep mul) 0) b) as [sb ov].
+    cbn [fst snd].
+    destruct (Nat.eq_dec (start + k) 0) as [E0|E0].
+    + assert (start = 0%nat) by lia. assert (k = 0%nat) by lia. subst start k.
+      change (Z.of_nat 0) with 0. cbn [Z.eqb andb Nat.add].
+      eexists. split; [reflexivity|]. cbn [fst snd]. split; [exact Hl|]. split; [reflexivity|].
+      split; reflexivity.
+    + assert (Ef : (Z.of_nat start =? 0) && (Z.of_nat k =? 0) = false).
+      { destruct (Z.eqb_spec (Z.of_nat start) 0); destruct (Z.eqb_spec (Z.of_nat k) 0); try reflexivity; lia. }
+      rewrite Ef. rewrite usub_ok by lia. cbn [bind].
+      replace (Z.of_nat (start + k) - 1) with (Z.of_nat (start + k - 1)) by lia.
+      rewrite arr_set_nat by lia. cbn [bind].
+      eexists. split; [reflexivity|]. cbn [fst snd]. split; [rewrite list_set_length; exact Hl|].
+      split; [lia|]. split; [|reflexivity].
+      rewrite rrep_set_rest. f_equal. lia.
+  - lia.
+  - exact Hu.
+  - reflexivity.
+  - lia.
+  - rewrite Hw'. cbn [bind]. destruct s' as [[b' i'] u']. cbn [fst snd] in *.
+    rewrite run_ip_eq in Hres by (unfold rrep; cbn [length]; lia).
+    rewrite scan_at_scan2 in Hres
+      by (try rewrite skipn_length; unfold rrep, mrep; try rewrite app_length; cbn [length]; lia).
+    rewrite Nat.add_0_r in Hres. cbn [skipn] in Hres.
+    unfold Div.Remainder_sub. rewrite dg_sub_loop_scan2.
+    replace (start + 0 + S range)%nat with (start + S range)%nat in Hres by lia.
+    destruct (scan2 (borrowing_sub w) (firstn (S range) (skipn start (rrep u))) (firstn (S range) (mrep mul)) false)
+      as [win' bo]. cbn [fst snd] in Hres |- *. inversion Hres as [[Hr Hb]].
+    exists u'. split; [reflexivity|]. split; [exact HP' | reflexivity].
+Qed.
+(* Remainder::add *)
+Lemma gen_Remainder_add w N fuel (u : Z * list Z) v start range :
+  length (snd u) = N -> length v = N -> (start + range <= N)%nat -> (range <= fuel)%nat ->
+  exists u', DivGen.Remainder_add w (Z.of_nat N) fuel u v (Z.of_nat start) (Z.of_nat range) = Done u' /\
+    length (snd u') = N /\ rrep u' = Div.Remainder_add w (rrep u) v start range.
+Proof.
+  intros Hu Hv Hsr Hf. unfold DivGen.Remainder_add.
+  match goal with |- context [while_loop fuel ?cnd ?bdy ?st0] =>
+    edestruct (loop_inplace (fun s : bool * Z * (Z * list Z) => rrep (snd s)) (fun s => fst (fst s)) (fun s => snd (fst s))
+                (fun s => length (snd (snd s)) = N) start range
+                (fun k x c => carrying_add w x (nth k v 0) c) cnd bdy)
+      with (d := range) (k := 0%nat) (s := st0) (fuel := fuel)
+      as (s' & Hw' & HP' & Hctr' & Hres) end.
+  - intros [[b i] self] k _ Hi Hk. cbn [fst snd] in Hi. subst i. apply Z.ltb_lt. lia.
+  - intros [[b i] self] _ Hi. cbn [fst snd] in Hi. subst i. apply Z.ltb_irrefl.
+  - intros [[b i] self] k Hl Hi Hk. cbn [fst snd] in Hl, Hi. subst i. cbv beta iota. cbn [fst snd].
+    rewrite <- Nat2Z.inj_add. rewrite gen_Remainder_digit by lia. cbn [bind].
+    rewrite arr_get_nat by lia. cbn [bind].
+    rewrite tie_carrying_add. replace (k + start)%nat with (start + k)%nat by lia.
+    destruct (carrying_add w (nth (start + k) (rrep self) 0) (nth k v 0) b) as [sb ov].
+    cbn [fst snd].
+    destruct (Nat.eq_dec (start + k) 0) as [E0|E0].
+    + assert (start = 0%nat) by lia. assert (k = 0%nat) by lia. subst start k.
+      change (Z.of_nat 0) with 0. cbn [Z.eqb andb Nat.add].
+      eexists. split; [reflexivity|]. cbn [fst snd]. split; [exact Hl|]. split; [reflexivity|].
+      split; reflexivity.
+    + assert (Ef : (Z.of_nat start =? 0) && (Z.of_nat k =? 0) = false).
+      { destruct (Z.eqb_spec (Z.of_nat start) 0); destruct (Z.eqb_spec (Z.of_nat k) 0); try reflexivity; lia. }
+      rewrite Ef. rewrite usub_ok by lia. cbn [bind].
+      replace (Z.of_nat (start + k) - 1) with (Z.of_nat (start + k - 1)) by lia.
+      rewrite arr_set_nat by lia. cbn [bind].
+      eexists. split; [reflexivity|]. cbn [fst snd]. split; [rewrite list_set_length; exact Hl|].
+      split; [lia|]. split; [|reflexivity].
+      rewrite rrep_set_rest. f_equal. lia.
+  - lia.
+  - exact Hu.
+  - reflexivity.
+  - lia.
+  - rewrite Hw'. cbn [bind]. destruct s' as [[b' i'] u']. cbn [fst snd] in *.
+    rewrite run_ip_eq in Hres by (unfold rrep; cbn [length]; lia).
+    rewrite scan_at_scan2 in Hres
+      by (try rewrite skipn_length; unfold rrep; cbn [length]; lia).
+    rewrite Nat.add_0_r in Hres. cbn [skipn] in Hres.
+    unfold Div.Remainder_add. rewrite dg_add_loop_scan2.
+    replace (start + 0 + range)%nat with (start + range)%nat in Hres by lia.
+    destruct (scan2 (carrying_add w) (firstn range (skipn start (rrep u))) (firstn range v) false)
+      as [win' co]. cbn [fst snd] in Hres. cbv beta iota zeta. inversion Hres as [[Hr Hb]]. clear Hres.
+    assert (Hlu' : length (rrep u') = S N) by (unfold rrep; cbn [length]; lia).
+    destruct co.
+    + rewrite set_nth_as_list_set by lia.
+      destruct (Nat.eq_dec (start + range) 0) as [E0|E0].
+      * assert (start = 0%nat) by lia. assert (range = 0%nat) by lia. subst start range.
+        change (Z.of_nat 0) with 0. cbn [Z.eqb andb Nat.add].
+        eexists. split; [reflexivity|]. split; [exact HP'|]. reflexivity.
+      * assert (Ef : (Z.of_nat start =? 0) && (Z.of_nat range =? 0) = false).
+        { destruct (Z.eqb_spec (Z.of_nat start) 0); destruct (Z.eqb_spec (Z.of_nat range) 0); try reflexivity; lia. }
+        rewrite Ef. rewrite <- Nat2Z.inj_add. rewrite usub_ok by lia. cbn [bind].
+        replace (Z.of_nat (range + start) - 1) with (Z.of_nat (start + range - 1)) by lia.
+        rewrite arr_get_nat by lia. cbn [bind]. rewrite arr_set_nat by lia. cbn [bind].
+        eexists. split; [reflexivity|]. cbn [fst snd]. split; [rewrite list_set_length; exact HP'|].
+        rewrite rrep_set_rest. replace (S (start + range - 1)) with (start + range)%nat by lia.
+        f_equal. unfold rrep, dg_add. replace (start + range)%nat with (S (start + range - 1)) at 2 by lia.
+        reflexivity.
+    + exists u'. split; [reflexivity|]. split; [exact HP' | reflexivity].
+Qed.
+
+(* Remainder::shr *)
+Lemma shr_loop_length w s : forall U, length (Div.Remainder_shr_loop w s U) = (length U - 1)%nat.
+Proof.
+  induction U as [|d r IH]; [reflexivity|]. destruct r as [|d' r']; [reflexivity|].
+  cbn [Div.Remainder_shr_loop length] in *. rewrite IH. lia.
+Qed.
+
+Lemma shr_loop_nth w s : forall U i, (S i < length U)%nat ->
+  nth i (Div.Remainder_shr_loop w s U) 0 =
+  (if 0 <? s then u_or (u_shr (nth i U 0) s) (u_shl w (nth (S i) U 0) (w - s)) else u_shr (nth i U 0) s).
+Proof.
+  induction U as [|d r IH]; intros i Hi; [cbn [length] in Hi; lia|].
+  destruct r as [|d' r']; [cbn [length] in Hi; lia|].
+  destruct i as [|i].
+  - reflexivity.
+  - cbn [Div.Remainder_shr_loop nth] in *. apply IH. cbn [length] in *. lia.
+Qed.
+
+Lemma gen_Remainder_shr w N fuel (u : Z * list Z) s : length (snd u) = N -> 0 <= s < w -> (N <= fuel)%nat ->
+  DivGen.Remainder_shr w (Z.of_nat N) fuel u s = Done (Div.Remainder_shr w (rrep u) s).
+Proof.
+  intros Hu Hs Hf. unfold DivGen.Remainder_shr. rewrite Nat2Z.id.
+  match goal with |- context [while_loop fuel ?cnd ?bdy (?o, 0)] =>
+    pose proof (loop_mapi (fun j (_ : Z) => u_shr (nth j (rrep u) 0) s) N cnd bdy ltac:(intros; reflexivity)) as L1 end.
+  match type of L1 with ?A -> _ => assert (B1' : A) end.
+  { intros out j Hj Hl. cbv beta iota. rewrite gen_Remainder_digit by lia. cbn [bind].
+    rewrite dshr_ok by lia. cbn [bind]. rewrite arr_set_nat by lia. reflexivity. }
+  specialize (L1 B1' fuel 0%nat (ZERO N) ltac:(apply repeat_length) ltac:(lia) ltac:(lia)).
+  change (Z.of_nat 0) with 0 in L1. cbn [firstn skipn app] in L1. rewrite L1. clear L1 B1'. cbn [bind].
+  rewrite Z.gtb_ltb. unfold Div.Remainder_shr.
+  destruct (Z.ltb_spec 0 s) as [Hpos|Hz].
+  - match goal with |- context [while_loop fuel ?cnd ?bdy (?o, 0)] =>
+      pose proof (loop_mapi (fun j x => dg_or w x (u_shl w (nth j (snd u) 0) (w - s))) N cnd bdy ltac:(intros; reflexivity)) as L2 end.
+    match type of L2 with ?A -> _ => assert (B2 : A) end.
+    { intros out j Hj Hl. cbv beta iota. rewrite arr_get_nat by lia. cbn [bind].
+      rewrite usub_ok by lia. cbn [bind]. rewrite dshl_ok by lia. cbn [bind].
+      rewrite arr_get_nat by lia. cbn [bind]. rewrite arr_set_nat by lia. reflexivity. }
+    specialize (L2 B2 fuel 0%nat (mapi (fun j (_ : Z) => u_shr (nth j (rrep u) 0) s) 0 (ZERO N))
+                  ltac:(rewrite mapi_length; apply repeat_length) ltac:(lia) ltac:(lia)).
+    change (Z.of_nat 0) with 0 in L2. cbn [firstn skipn app] in L2. rewrite L2. clear L2 B2. cbn [bind]. f_equal.
+    apply nth_ext with (d := 0) (d' := 0).
+    + rewrite !mapi_length, shr_loop_length. unfold ZERO, rrep. rewrite repeat_length. cbn [length]. lia.
+    + intros i Hi. rewrite !mapi_length in Hi. unfold ZERO in Hi. rewrite repeat_length in Hi.
+      rewrite nth_mapi by (rewrite mapi_length; unfold ZERO; rewrite repeat_length; lia).
+      rewrite nth_mapi by (unfold ZERO; rewrite repeat_length; lia).
+      rewrite shr_loop_nth by (unfold rrep; cbn [length]; lia).
+      destruct (Z.ltb_spec 0 s); [|lia]. cbn [Nat.add]. reflexivity.
+  - f_equal. apply nth_ext with (d := 0) (d' := 0).
+    + rewrite !mapi_length, shr_loop_length. unfold ZERO, rrep. rewrite repeat_length. cbn [length]. lia.
+    + intros i Hi. rewrite !mapi_length in Hi. unfold ZERO in Hi. rewrite repeat_length in Hi.
+      rewrite nth_mapi by (unfold ZERO; rewrite repeat_length; lia).
+      rewrite shr_loop_nth by (unfold rrep; cbn [length]; lia).
+      destruct (Z.ltb_spec 0 s); [lia|]. cbn [Nat.add]. reflexivity.
+Qed.
